@@ -9,6 +9,21 @@ CLAIMED = {
    text="Every reference-script size up to the per-transaction limit, every tier boundary up to 200/1000 tiers, and full products of width-class arguments are executed on the real functions and compared with an independent big-rational transcription of the ledger's tier recursion; overflow must surface as Err. Exhaustive inside the stated bounds, nothing sampled.",
    note="Trusted: num-bigint, my transcription of tierRefScriptFee / ceil / linear fee. Prices with zero denominators are outside the domain. Sizes above 1000 tiers not enumerated.",
    design="DESIGN.md §3 C15"),
+ "C14": dict(
+   technique="bounded-exhaustive enumeration (E1 choice tree): full products of boundary operands x operations on the real BigNum/Int/BigInt/Value/MultiAsset code vs u128 / big-integer / own-RFC8949-encoder references",
+   text="All operand pairs over the width classes and their neighbours for 9 BigNum operations; every Int constructor/parse path (new, new_negative, new_i32, from_str, from_bytes at every head width, JSON, MintBuilder accumulation, metadata keys/numbers) followed by every accessor and codec; BigInt +-(2^k-1, 2^k, 2^k+1) for every k<=2000 through CBOR/string/JSON/arithmetic; all ordered pairs (and triples of a sub-alphabet) of value bundles for add/sub/clamped_sub/compare/associativity. Every execution compares the library result with an exact reference; nothing is sampled.",
+   note="Trusted: num-bigint as reference arithmetic, harness/src/refcbor.rs as RFC 8949 encoder. Division by zero excluded. Equality judged on quantities (zero = absent). Two known findings (Value::checked_sub clamps assets; Int::as_negative(-2^64)).",
+   design="DESIGN.md §3 C14"),
+ "C11": dict(
+   technique="bounded-exhaustive enumeration (E1): all 256 header bytes x payload lengths 0..80 x fill patterns, all pointer triples over width classes, all single (thorough: pair) byte corruptions of Byron addresses, through strict parsers and embedded in outputs, vs a CIP-19 reference classifier",
+   text="Every header byte at every length 0..80 is run through Address::from_bytes/from_hex/from_bech32 and embedded in TransactionOutput (both forms) and TransactionUnspentOutput; acceptance, kind, network, credentials and pointer values must equal a 60-line CIP-19 classifier, accepted addresses must survive bytes/hex/Bech32 (default + arbitrary prefixes)/JSON, invalid embedded bytes must come back verbatim as Malformed. Byron: all attribute combinations built by an independent CBOR+CRC32 encoder, every single-byte (thorough: every pair) corruption, trailing bytes, malformed Base58/Bech32 text.",
+   note="Trusted: my CIP-19 transcription, own CRC32/base58, bech32 crate for test-input encoding. Hash content is 3 fill patterns. One known finding (embedded address + trailing bytes re-encoded without them).",
+   design="DESIGN.md §3 C11"),
+ "C20": dict(
+   technique="bounded-exhaustive enumeration (E1): all certificate sequences up to length 3 (thorough 4) x withdrawals x proposals x deposit-parameter grid on the real helpers and the real TransactionBuilder vs a ledger deposit/refund table",
+   text="All 16 275 (thorough 406 901) certificate sequences over 25 certificates covering the 19 CDDL kinds, crossed with 3 withdrawal maps, 3 proposal lists and a 5x5 grid of (key_deposit, pool_deposit) including 2^63 and 2^64-1: get_deposit/get_implicit_input on the body, TransactionBuilder::get_deposit/get_implicit_input for the same content, and the harness's ledger table must agree three ways; totals above 2^64-1 must be Err everywhere.",
+   note="Trusted: the deposit/refund table transcribed from the Conway ledger rules. Pool registrations counted as first registrations.",
+   design="DESIGN.md §3 C20"),
 }
 
 PENDING_REASON = "check not built yet in this session (work in progress; see DESIGN.md §8 construction order)"
